@@ -349,7 +349,8 @@ fn random_case(rng: &mut Rng) -> Case {
     match rng.below(20) {
         0 => Case { headers: vec![], how: "missing" },
         1 | 2 => {
-            let other = valid_string(rng, rng.range(0, 70) as usize);
+            let n_other = rng.range(0, 70) as usize;
+            let other = valid_string(rng, n_other);
             Case { headers: vec![(name, val), (header_name(rng), other)], how: "duplicate" }
         }
         _ => Case { headers: vec![(name, val)], how },
@@ -438,7 +439,7 @@ fn main() {
         return;
     }
     let threads = a.pick(2, 8) as u64;
-    let n_random = a.pick(4_000u64, 400_000u64);
+    let n_random = a.pick(40_000u64, 1_500_000u64);
     std::thread::scope(|s| {
         for shard in 0..threads {
             let rep = &rep;
